@@ -1346,7 +1346,10 @@ static FJ_ALWAYS_INLINE int run_paged_loop_impl(MemoryObject* self, PyObject* re
                     goto memory_or_python_error;
                 }
             } else if (op_words) {
-                if (op_offset + 1 >= self->page_cache_valid_end[op_slot]) {
+                /* the flip may have evicted the op's page from its cache slot (a flip page that
+                   maps to the same slot) - the slot's valid range then belongs to another page */
+                if ((word_address >> PAGE_BITS) + 1 != self->page_cache_key_plus1[op_slot] ||
+                    op_offset + 1 >= self->page_cache_valid_end[op_slot]) {
                     goto cold_jump_word_slow;
                 }
                 j = op_words[op_offset + 1];
